@@ -408,6 +408,8 @@ def subject_e2e(case):
     xml = render(case['doc'])
     conv = {'jsonml': xmlschema.JsonMLConverter, 'default': None, 'badgerfish': xmlschema.BadgerFishConverter}[case['conv']]
     kw = {'converter': conv, 'preserve_root': True, 'xmlns_processing': case['mode']}
+    if case.get('namespaces') is not None:
+        kw['namespaces'] = dict(case['namespaces'])
     out = {}
     try:
         data = s.decode(xml, **kw)
@@ -450,8 +452,8 @@ def check_e2e(ctx, cases):
         doc_names(c['doc'], want)
         ordered = c['conv'] == 'jsonml'
         nontriv = len(want) >= 3 and any(n['decls'] for n, lv in preorder(c['doc']) if lv > 0)
-        ctx.count(('e2e', c['conv'], c['mode'], xml), nontrivial=nontriv)
-        ctx.dist('e2e_config', '%s/%s' % (c['conv'], c['mode']))
+        ctx.count(('e2e', c['conv'], c['mode'], xml, json.dumps(c.get('namespaces'))), nontrivial=nontriv)
+        ctx.dist('e2e_config', '%s/%s%s' % (c['conv'], c['mode'], '/user namespace map' if c.get('namespaces') is not None else ''))
         rep = {'kind': 'e2e', 'case': c, 'xml': xml, 'impl': o}
         if 'harness_exception' in o:
             ctx.violation('e2e run failed: %s' % o['harness_exception'], rep, no_input=True)
@@ -513,6 +515,9 @@ def run(ctx):
         # the other two modes that keep namespace information: declarations collapsed on the root (colliding
         # prefixes renamed) or only the root's declarations (other names stay in {uri}local form)
         ecases.append({'doc': d, 'conv': ('jsonml', 'default')[i % 2], 'mode': ('collapsed', 'root-only', 'collapsed')[i % 3]})
+        # a user-supplied namespace map that collides with / partially covers the document's declarations
+        um = {p: rng.choice(URIS) for p in rng.sample(['p', 'q', 'r'], rng.randint(1, 3))}
+        ecases.append({'doc': d, 'conv': ('default', 'jsonml')[i % 2], 'mode': 'stacked', 'namespaces': sorted(um.items())})
     import os
     reg = common.VERIF / 'regressions' / 'C17'
     if reg.exists():
@@ -522,7 +527,8 @@ def run(ctx):
             ecases.insert(0, {'doc': r['doc'], 'conv': 'jsonml', 'mode': 'stacked'})
     ctx.rule = ('seeded documents over prefixes {p,q,default} x URIs {u1,u2,u3,absent}, depth<=4, random redeclaration / '
                 'shadowing / unsetting; mapper level: pre-order operation sequences compared with Mapper.v; end to end: '
-                'decode/encode with JsonML and default converters (stacked, collapsed and root-only xmlns processing); '
+                'decode/encode with JsonML and default converters (stacked, collapsed and root-only xmlns processing; stacked also with '
+                'user-supplied namespace maps over {p,q,r} that collide with / partially cover the declarations); '
                 'non-trivial = at least 3 nodes and a nested declaration (mapper: a shadowed prefix)')
     check_mapper(ctx, mcases)
     ccases = [{'doc': gen_doc(rng, max_depth=3, prefixes=C_PREFIXES), 'mode': 'collapsed' if i % 4 else 'root-only'}
@@ -531,7 +537,9 @@ def run(ctx):
     check_e2e(ctx, ecases)
     ctx.assumptions = ['BadgerFish is not used here: its encoder fails on lists of children for reasons unrelated to prefixes (see C05)',
                        'collapsed / root-only modes: the renaming model Collapsed.v assumes numeric prefix suffixes without leading zeros',
-                       'attribute keys are resolved without the default namespace, as XML prescribes']
+                       'attribute keys are resolved without the default namespace, as XML prescribes',
+                       'user-supplied namespace maps bind non-empty prefixes only: a user default namespace for a document '
+                       'with elements in no namespace makes bare keys ambiguous by construction']
 
 
 def replay(ctx, case):
